@@ -29,6 +29,20 @@ Definition stream_order_ok (acts : list act) (observed : list obs) : bool :=
                         subseqZ wr sent
                     | _ => true end) (events_of observed).
 
+(* C05, per-stream order on the way in (C05_server_order, C05_server_recv_results): the messages RecvMsg returned to a
+   stream handler are, in order and without repetition, among the message envelopes delivered under its id *)
+Definition recv_order_ok (acts : list act) (observed : list obs) : bool :=
+  forallb (fun e => match e with
+                    | SvInvoke h false id _ _ _ =>
+                        let got := flat_map (fun e' => match e' with SvOp g (ORecvMsg b) => if Nat.eqb g h then [b] else [] | _ => [] end)
+                                            (events_of observed) in
+                        let sent := flat_map (fun a => match a with
+                                                       | ADeliver f => if (fid f =? id) && negb (is_rst f) && negb (has_trl f)
+                                                                       then match ebody (f_env f) with Some b => [b] | None => [0] end else []
+                                                       | _ => [] end) acts in
+                        subseqZ got sent
+                    | _ => true end) (events_of observed).
+
 (* C05, unary requests are isolated per request, not per id: every qualifying unary request delivered is handed to its
    own handler (same id, payload, in delivery order), and the reply a handler returns is written under the request's
    id to the request's source *)
@@ -53,7 +67,7 @@ Definition unary_pairing_ok (acts : list act) (observed : list obs) : bool :=
 Definition check_c05srv (c : svcase) : list nat :=
   match c with
   | CSrv acts observed =>
-      match (if stream_order_ok acts observed then [] else [6%nat]) ++ (if unary_pairing_ok acts observed then [] else [7%nat]) with
+      match (if stream_order_ok acts observed && recv_order_ok acts observed then [] else [6%nat]) ++ (if unary_pairing_ok acts observed then [] else [7%nat]) with
       | [] => check_agree c
       | rs => rs
       end
